@@ -288,6 +288,10 @@ def first_divergence(run: PipelineRun, kind, rv) -> str:
             df = build.export_polars(b.vars[v])
             oracle.compare_ref(run.ref.vars[v], df, view=view)
         except oracle.Mismatch:
+            if kind == "polars" and v != rv and _noopt_agrees(b.vars[v], lambda d, v=v: oracle.compare_ref(run.ref.vars[v], d, view=view)):
+                # an intermediate table is only wrong under the Polars optimizer (DESIGN 4.15 b); a later collect()
+                # has frozen that result
+                run.prefix_quirk = "polars_optimizer"
             return f"{s['verb']}<{prev}"
         except BaseException as ex:  # noqa: BLE001
             reraise_control(ex)
